@@ -421,7 +421,8 @@ class Ctx:
             rec["actions_never_taken"] = r.zero_coverage
         self.mc_runs.append(rec)
         if expect_violation:
-            if r.status != "violation" or r.violated != expect_violation:
+            exp = [expect_violation] if isinstance(expect_violation, str) else list(expect_violation)
+            if r.status != "violation" or r.violated not in exp:
                 raise Infra("model %s/%s: expected violation of %s, got %s (%s)\n%s" %
                             (spec, cfg_path, expect_violation, r.status, r.violated, r.out[-2000:]))
             return r
